@@ -1,6 +1,6 @@
 //! C13 — mani: manifest edits are atomic and durable; reopening replays exactly those applied.
 //!
-//! Five streams, all against the real `mani::Manifest` in a scratch directory under /var/tmp:
+//! Six streams, all against the real `mani::Manifest` in a scratch directory under /var/tmp:
 //!   1. `step`  — histories of edits / reopens / rollovers; after every event the directory bytes,
 //!      the in-memory state, the state after `Manifest::open` of a copy, `Manifest::verify`;
 //!   2. `cuts`  — every (or a capped set of) truncation length of a MANIFEST, reopened in a copy;
@@ -13,6 +13,10 @@
 //!      Stream 3 ties the code to `ManiCrash` (its images follow the op order the harness
 //!      re-implements); stream 5 is the oracle's input (a call the code forgets, e.g. the
 //!      fdatasync of MANIFEST.tmp before the rename, reaches an image here).
+//!   6. `lock`  — two PROCESSES on one directory: a child of this binary calls `Manifest::open`
+//!      while this process holds the lock, is seen waiting in `fcntl(F_SETLKW)`, this process
+//!      applies more edits and drops its handle, the child opens, runs its events and exits;
+//!      a reopen must show exactly the edits applied (`Blue.ManiLock.waiterOpen`, read under lock).
 //! The oracle uses its own reference replay (BTreeSet/BTreeMap) and never the model.
 use crate::common::*;
 use crate::fstrace::{self, FsOp, SimFs};
@@ -835,6 +839,28 @@ fn image_fingerprint(sim: &SimFs, model_b: bool) -> u64 {
     fnv(&buf)
 }
 
+/// is the process inside a blocking `fcntl(fd, F_SETLKW, …)`?  /proc/<pid>/syscall shows the
+/// system call a sleeping process sits in (fcntl: 72 on x86_64, 25 on aarch64) and its arguments;
+/// /proc/locks lists a blocked waiter as `… -> POSIX ADVISORY WRITE <pid> …`.
+fn blocked_on_lock(pid: u32) -> bool {
+    if let Ok(s) = std::fs::read_to_string(format!("/proc/{}/syscall", pid)) {
+        let t: Vec<&str> = s.split_whitespace().collect();
+        if t.len() >= 3 && (t[0] == "72" || t[0] == "25") && t[2] == format!("{:#x}", libc::F_SETLKW) {
+            return true;
+        }
+    }
+    if let Ok(s) = std::fs::read_to_string("/proc/locks") {
+        let p = pid.to_string();
+        for l in s.lines() {
+            let t: Vec<&str> = l.split_whitespace().collect();
+            if t.len() >= 6 && t[1] == "->" && t[5] == p {
+                return true;
+            }
+        }
+    }
+    false
+}
+
 pub fn run(args: &Args) {
     if args.rest.first().map(|s| s.as_str()) == Some("--child") {
         child_main(&args.rest);
@@ -1529,9 +1555,176 @@ pub fn run(args: &Args) {
         }
     }
 
+
+    // ---- stream 6: a second process waits for the lock ------------------------------------------
+    // The first process (this one) holds the manifest open; a second process (this binary's
+    // `--child` entry: `Manifest::open` with the default options, its events, exit) is started on
+    // the same directory and has to wait for LOCKFILE as the crate's own tools do; while it waits
+    // the first process applies more edits — every `apply` returns — and then drops its handle;
+    // the second gets the lock, opens (rolling over what it read), runs its events and exits.
+    // Oracle: both processes are done; a reopen shows exactly the edits applied, in order
+    // (first process before the wait, during the wait, then the second's); verify finds no error.
+    let n_lock: u64 = if args.thorough { 150 } else { 30 };
+    let lock_dir = scratch.join("lock");
+    for hi in 0..n_lock {
+        let mut rng = Rng::for_case(args.seed, 6, hi);
+        if !rec.wants() {
+            rec.skip();
+            continue;
+        }
+        let mut h = gen_hist(&mut rng, if hi % 3 == 1 { Profile::Long } else { Profile::Small }, 9, true);
+        for _ in 0..8 {
+            if hist_class(&h, h.evs.len()) == "well-formed-history" {
+                break;
+            }
+            h = gen_hist(&mut rng, Profile::Small, 9, true);
+        }
+        h.stale = false;
+        let n = h.evs.len() as u64;
+        let a = rng.range(0, n) as usize;
+        let b = rng.range(a as u64, n) as usize;
+        let pre: Vec<Ev> = h.evs[..a].to_vec();
+        let mut dur: Vec<Ev> = h.evs[a..b].iter().filter(|e| !matches!(e, Ev::Reopen)).cloned().collect();
+        // an explicit rollover needs a MANIFEST; at least one edit is applied during the wait
+        let edited_before = pre.iter().any(|e| matches!(e, Ev::Edit(_)));
+        if !edited_before {
+            while matches!(dur.first(), Some(Ev::Rollover)) {
+                dur.remove(0);
+            }
+        }
+        if !dur.iter().any(|e| matches!(e, Ev::Edit(_))) {
+            dur.push(Ev::Edit(vec![Call::Add(format!("during{}", hi)), Call::Info('v', format!("{}", hi))]));
+        }
+        let second: Vec<Ev> = h.evs[b..].to_vec();
+        let toks = |evs: &[Ev]| evs.iter().map(ev_tok).collect::<Vec<_>>().join(" ");
+        let req = format!("mani lock {} {} / {} / {}", h.ratio, toks(&pre), toks(&dur), toks(&second)).split_whitespace().collect::<Vec<_>>().join(" ");
+        rec.count("lock.case");
+        let class = || hist_class(&h, h.evs.len()).to_string();
+        let mut reference = Ref::default();
+        let mut bad: Vec<String> = vec![];
+        let mut live = match Live::start(&lock_dir, &Hist { ratio: h.ratio, stale: false, evs: vec![] }) {
+            Ok(l) => l,
+            Err(t) => {
+                rec.case(&req, &t, Verdict::Fail { class: "initial-open".into(), detail: t.clone() }, None);
+                continue;
+            }
+        };
+        for e in &pre {
+            let obs = live.event(e);
+            if let Some(t) = obs.trouble {
+                bad.push(format!("first process, before the wait: {}", t));
+            }
+            if let Ev::Edit(cs) = e {
+                reference.apply(cs, &obs.api);
+            }
+        }
+        // the second process
+        let mut cmd = std::process::Command::new(&exe);
+        cmd.arg("C13").arg("--child").arg(&lock_dir).arg(h.ratio.to_string());
+        for e in &second {
+            cmd.arg(ev_tok(e));
+        }
+        let mut child = match cmd.stdin(std::process::Stdio::null()).stdout(std::process::Stdio::null()).stderr(std::process::Stdio::null()).spawn() {
+            Ok(c) => c,
+            Err(e) => {
+                rec.case(&format!("# {}", req), "#", Verdict::Fail { class: "second-process-did-not-start".into(), detail: e.to_string() }, None);
+                continue;
+            }
+        };
+        // wait until it sits in fcntl(F_SETLKW) on the lock this process holds
+        let t0 = std::time::Instant::now();
+        let mut waiting = false;
+        let mut exited = None;
+        while t0.elapsed() < std::time::Duration::from_secs(30) {
+            if blocked_on_lock(child.id()) {
+                waiting = true;
+                break;
+            }
+            if let Ok(Some(st)) = child.try_wait() {
+                exited = Some(st);
+                break;
+            }
+            std::thread::sleep(std::time::Duration::from_micros(500));
+        }
+        if !waiting {
+            let _ = child.kill();
+            let _ = child.wait();
+            drop(live);
+            rec.count("lock.second_process_not_seen_waiting");
+            rec.case(&format!("# {}", req), "#", Verdict::Fail { class: "second-process-did-not-wait-for-lock".into(), detail: format!("exit {:?} after {:?}", exited, t0.elapsed()) }, None);
+            continue;
+        }
+        rec.count("lock.second_process_waited");
+        for e in &dur {
+            let obs = live.event(e);
+            if let Some(t) = obs.trouble {
+                bad.push(format!("first process, during the wait: {}", t));
+            }
+            if let Ev::Edit(cs) = e {
+                rec.count("lock.edits_applied_during_the_wait");
+                reference.apply(cs, &obs.api);
+            }
+        }
+        drop(live);
+        let t1 = std::time::Instant::now();
+        let mut code = None;
+        while t1.elapsed() < std::time::Duration::from_secs(60) {
+            if let Ok(Some(st)) = child.try_wait() {
+                code = Some(st.code().unwrap_or(-1));
+                break;
+            }
+            std::thread::sleep(std::time::Duration::from_micros(500));
+        }
+        if code.is_none() {
+            let _ = child.kill();
+            let _ = child.wait();
+        }
+        for e in &second {
+            if let Ev::Edit(cs) = e {
+                reference.apply(cs, &accepted_calls(cs));
+            }
+        }
+        match code {
+            Some(0) => {}
+            Some(c) => bad.push(format!("the second process exits with {}", c)),
+            None => bad.push("the second process does not finish once the lock is free".into()),
+        }
+        copy_manifest_files(&lock_dir, &copy_dir);
+        let reopened = open_state(h.ratio, &copy_dir);
+        let ver = verify_count(h.ratio, &lock_dir);
+        match &reopened {
+            Ok(r) if *r == reference => {}
+            Ok(r) => bad.push(format!("after both processes are done a reopen shows {} — the edits applied, in order, give {}", r.render(), reference.render())),
+            Err(e) => bad.push(format!("reopen fails: {}", e)),
+        }
+        match &ver {
+            Ok(0) => {}
+            Ok(n) => bad.push(format!("Manifest::verify reports {} error(s)", n)),
+            Err(p) => bad.push(format!("Manifest::verify panics: {}", p)),
+        }
+        let observed = format!(
+            "open={} verify={}",
+            match &reopened {
+                Ok(r) => r.render(),
+                Err(e) => e.clone(),
+            },
+            match &ver {
+                Ok(n) => n.to_string(),
+                Err(p) => format!("panic:{}", p.replace(' ', "_")),
+            }
+        );
+        let verdict = if bad.is_empty() {
+            Verdict::Ok
+        } else {
+            let c = class();
+            Verdict::Fail { class: if c == "well-formed-history" { "edits-lost-to-waiting-opener".into() } else { c }, detail: bad.join("; ") }
+        };
+        rec.case(&req, &observed, verdict, Some(fnv(req.as_bytes())));
+    }
+
     let _ = std::fs::remove_dir_all(&scratch);
     rec.finish(
-        "histories of manifest edits (adds, removes, info updates, empty edits, re-adds of removed strings, every accepted byte, long strings; ratios 0..1000; reopens, explicit rollovers, a stale MANIFEST.tmp) run with the real mani::Manifest: one case per event (directory bytes, in-memory state, reopen of a copy, verify), per truncated file (all or a capped set of lengths, each reopened), per crash point x {completed calls persist, unsynced bytes lost} (image rebuilt, reopened, verified), per strace'd run, and per prefix of the REAL system-call trace of a history (strace -f -xx -y of a re-exec'd child; image rebuilt from the traced calls under both persistence models, distinct images reopened and verified — the oracle's crash input); non-trivial = a step after >= 2 events, a cut file longer than one line, a crash point after >= 1 call, any traced run; distinct by request text",
+        "histories of manifest edits (adds, removes, info updates, empty edits, re-adds of removed strings, every accepted byte, long strings; ratios 0..1000; reopens, explicit rollovers, a stale MANIFEST.tmp) run with the real mani::Manifest: one case per event (directory bytes, in-memory state, reopen of a copy, verify), per truncated file (all or a capped set of lengths, each reopened), per crash point x {completed calls persist, unsynced bytes lost} (image rebuilt, reopened, verified), per strace'd run, per two-process run (a second process — this binary's child entry — calls Manifest::open while this one holds the lock, waits in fcntl(F_SETLKW), the holder applies more edits and lets go; a reopen after both are done must show exactly the edits applied, against Blue.ManiLock.waiterOpen read under the lock), and per prefix of the REAL system-call trace of a history (strace -f -xx -y of a re-exec'd child; image rebuilt from the traced calls under both persistence models, distinct images reopened and verified — the oracle's crash input); non-trivial = a step after >= 2 events, a cut file longer than one line, a crash point after >= 1 call, any traced run; distinct by request text",
         &[],
     );
 }
